@@ -27,10 +27,15 @@
 (*                    (TRUE: repaired; FALSE: as built, finding S06a)      *)
 (*   CleanupFirst     compaction deletes old files before publishing       *)
 (*                    (mutation)                                           *)
+(*   LazyFetch        a kept reader opens a segment's stored-field file    *)
+(*                    only at its first fetch (mutation, seeded change     *)
+(*                    r2-C06); FALSE as built: every file of a segment is  *)
+(*                    opened while the reader is built, and an open file   *)
+(*                    survives the unlink done by compaction cleanup       *)
 (***************************************************************************)
 EXTENDS IndexOps, TLC, Json
 
-CONSTANTS Writers, Readers, Compactors, Prog, UseLock, HoldReadLock, CleanupFirst
+CONSTANTS Writers, Readers, Compactors, Prog, UseLock, HoldReadLock, CleanupFirst, LazyFetch
 
 Threads == Writers \cup Readers \cup Compactors
 
@@ -218,11 +223,21 @@ ReaderDone(t) ==
   /\ NextCall(t) /\ Move(t)
   /\ UNCHANGED <<wlock, mem, disk, files, wal, pend, hist, serial, nseg>>
 
+(* a kept reader: the reader built by the thread's last "read" call is used  *)
+(* again later (stored-field fetch of a hit).  It serves its own snapshot;  *)
+(* it can fail only if a file it needs was not opened at build time.        *)
+ReaderFetch(t) ==
+  /\ t \in Readers /\ At(t, "start") /\ Call(t).op = "fetch"
+  /\ loc' = [loc EXCEPT ![t].failed = @ \/ (LazyFetch /\ ~(loc[t].snap.segs \subseteq files)),
+                         ![t].result = loc[t].snap.contents]
+  /\ NextCall(t) /\ Move(t)
+  /\ UNCHANGED <<wlock, mlock, mem, disk, files, wal, pend, hist, serial, nseg>>
+
 ThreadStep(t) ==
      \/ Acquire(t) \/ Release(t) \/ AddStep(t) \/ RollbackStep(t)
      \/ CommitSnapshot(t) \/ CommitSegment(t) \/ CommitStore(t) \/ CommitPublish(t) \/ CommitTruncate(t)
      \/ CompactCopy(t) \/ CompactLock(t) \/ CompactSegment(t) \/ CompactPublish(t) \/ CompactUnlock(t) \/ CompactCleanup(t)
-     \/ ReaderCopy(t) \/ ReaderOpen(t) \/ ReaderDone(t)
+     \/ ReaderCopy(t) \/ ReaderOpen(t) \/ ReaderDone(t) \/ ReaderFetch(t)
 
 (* liveness: with every thread scheduled fairly, every program runs to     *)
 (* completion - no call waits forever on the writer mutex or the RwLock    *)
@@ -234,7 +249,7 @@ Next ==
      \/ Acquire(t) \/ Release(t) \/ AddStep(t) \/ RollbackStep(t)
      \/ CommitSnapshot(t) \/ CommitSegment(t) \/ CommitStore(t) \/ CommitPublish(t) \/ CommitTruncate(t)
      \/ CompactCopy(t) \/ CompactLock(t) \/ CompactSegment(t) \/ CompactPublish(t) \/ CompactUnlock(t) \/ CompactCleanup(t)
-     \/ ReaderCopy(t) \/ ReaderOpen(t) \/ ReaderDone(t)
+     \/ ReaderCopy(t) \/ ReaderOpen(t) \/ ReaderDone(t) \/ ReaderFetch(t)
 
 Spec == Init /\ [][Next]_vars
 
@@ -255,6 +270,9 @@ DiskOpenable == Quiescent => (disk.segs \subseteq files /\ disk = mem)
 (* C06 *)
 ReaderNeverFails == \A t \in Readers : ~loc[t].failed
 SnapshotIsCommitted == \A t \in Readers : loc[t].snap \in hist
+(* what a kept reader returns is the contents of the manifest it was built  *)
+(* from, whatever was committed or compacted since                           *)
+HeldReaderStable == \A t \in Readers : (~loc[t].failed /\ pc[t][1] > 1 /\ pc[t][2] = "start") => loc[t].result = loc[t].snap.contents
 NoDeadlock == Finished \/ ENABLED Next
 
 PrintSchedule == Finished => PrintT(<<"CASE", ToJson([sched |-> sched])>>)
